@@ -43,6 +43,26 @@ theorem C08_packet_needs_all_bytes (b0 : UInt8) (body : Bytes) (hn : body.length
   obtain ⟨e, he, _⟩ := C08_cut_reported b0 body hn k hk r hd
   rw [he]; simp
 
+/-- **anywhere in a session**: after any number of complete frames (valid packets or not), a stream
+that ends or fails inside the next frame — after any proper prefix of it, incl. none of it — makes
+the next `ReadPacket` return no packet and an error, and for a reader failure `errors.Is(err, E)`
+holds. The frames before the cut are still delivered, in order. -/
+theorem C08_cut_after_frames (fs : List (UInt8 × Bytes)) (hall : ∀ f ∈ fs, f.2.length < 268435456)
+    (b0 : UInt8) (body : Bytes) (hn : body.length < 268435456) (k : Nat) (hk : k < (frameBytes b0 body).length)
+    (r : Reader) (hd : r.data = fs.flatMap (fun f => frameBytes f.1 f.2) ++ (frameBytes b0 body).take k) :
+    (readAll fs.length r).1 = fs.map (fun f => frameOutcome f.1 f.2)
+      ∧ ∃ e, (readPacket (readAll fs.length r).2).1 = .err e ∧ (r.fail ≠ .eof → e.is r.fail = true) := by
+  have h := readAll_frames fs r _ hall hd
+  obtain ⟨e, he, hi⟩ := C08_cut_reported b0 body hn k hk (readAll fs.length r).2 h.2.1
+  exact ⟨h.1, e, he, by rw [h.2.2] at hi; exact hi⟩
+
+/-- non-vacuity: a PINGREQ and a PUBACK, then a PUBLISH cut after 3 bytes when the transport fails -/
+example :
+    let r : Reader := { data := [0xc0, 0x00, 0x40, 0x02, 0x00, 0x01, 0x30, 0x05, 0x00], sched := List.replicate 12 1,
+                        fail := .custom 7 }
+    (readAll 2 r).1 = [.pkt (.pingreq { fixed := 0xc0 }), .pkt (.puback { fixed := 0x40, packetID := 1 })]
+      ∧ (readPacket (readAll 2 r).2).1 = .err (.io (.custom 7)) := by decide
+
 /-- non-vacuity: a PUBLISH frame cut after 5 of its 7 bytes, delivered in two chunks, the
 transport error arriving together with the last bytes -/
 example :
